@@ -73,6 +73,9 @@ func main() {
 			continue
 		}
 		renameNotes = append(renameNotes, pr.Ren.Notes...)
+		for _, cv := range pr.Ren.Conv {
+			inl.Conversions = append(inl.Conversions, inl.Conversion{OldName: cv.OldName, OldIsMethod: cv.OldIsMethod, New: cv.New, K: cv.K})
+		}
 		for _, m := range []map[string]*types.Func{pr.Ren.Func, pr.Ren.Method} {
 			for _, obj := range m {
 				inl.Renamed[funcKey(obj)] = true
@@ -115,7 +118,7 @@ func main() {
 		}
 		os.Exit(0)
 	}
-	var inlined, keptNew, newFuncs []string
+	var inlined, keptNew, newFuncs, undone []string
 	inlineNote := ""
 	if *inlineAll {
 		inl.TreatAllAsNew = true
@@ -130,6 +133,7 @@ func main() {
 			inlined = append(inlined, tr.Inlined...)
 			keptNew = append(keptNew, tr.Kept...)
 			newFuncs = append(newFuncs, tr.New...)
+			undone = append(undone, tr.Undone...)
 		}
 		if *showSrc {
 			for k, v := range overlay {
@@ -192,6 +196,9 @@ func main() {
 		}
 		if len(renameNotes) > 0 {
 			run.Extra["baseline_symbols_renamed_in_this_tree"] = renameNotes
+		}
+		if len(undone) > 0 {
+			run.Extra["function_method_conversions_undone_before_analysis"] = undone
 		}
 		if inlineNote != "" {
 			run.Extra["inlining_note"] = inlineNote
